@@ -294,6 +294,21 @@ def check(F, run, tier):
         "it, on both entry points; tileset name length; 'TILE SET' marker), raw read extents in the saved-game unit block, "
         "and that both entry points return the map produced by ReadMapBeginning without storing into it.")
     run.add(shifts_and_products(F, S))
+    # no value computed from the file is narrowed on its way to a seek, a size or a count (a 64-bit byte count kept in a 32-bit
+    # local wraps for counts near 2^32): none on the reviewed tree, so the positive fixture shows the rule can fire
+    from ..rules_narrow import r_narrow
+    nn = 0
+    for rf in sorted(F.functions.values(), key=lambda f: f.key):
+        if "/Map/MapReader.cpp" in rf.file and rf.cfg and not rf.d.get("implicit") and not rf.d.get("lambda"):
+            o, k = r_narrow(F, S, rf, explicit_only=False, sign_conversions=False)
+            run.add([x for x in o if "accumulation in" not in x.required])
+            nn += k
+    fxn = [f for f in F.fixture_functions.values() if f.qn == "fixture::Codes::Find"]
+    hitn = False
+    if fxn:
+        o, _ = r_narrow(F, S, fxn[0], explicit_only=False, sign_conversions=False)
+        hitn = any(x.status == "violated" for x in o)
+    run.fixture("fixtures/raw_read.cpp: `uint16_t slot = code + count` (implicit narrowing of a computed value) is reported by R-NARROW", hitn)
     # the reader consumes exactly the fields of the format, in order (a shorter parse would accept proper prefixes)
     from .seqdefs import seq_obligations
     from . import c16
